@@ -71,7 +71,8 @@ class _Canonical(ast.NodeTransformer):
     """Spelling-only normal forms, so that rules see one shape for equivalent code:
     (a) `t = t op e` -> `t op= e`  (name / attribute-of-a-name targets, arithmetic and bit operators);
     (b) `t = e; return t` (adjacent statements; `t` is dead after the return) -> `return e`;
-    (c) `if c: x = a  else: x = b` (single plain assignments to one name) -> `x = a if c else b`."""
+    (c) `if c: x = a  else: x = b` (single plain assignments to one name) -> `x = a if c else b`;
+    (d) `t = e; if t:` (or `if not t:`) with `t` used nowhere else -> `if e:`."""
 
     _OPS = (ast.Add, ast.Sub, ast.Mult, ast.BitOr, ast.BitAnd, ast.FloorDiv)
 
@@ -127,6 +128,21 @@ class _Canonical(ast.NodeTransformer):
                         out.append(ast.copy_location(ast.Return(value=st.value), st))
                         i += 2
                         continue
+                    # (d) `t = e; if t: ...` / `while`-less single use of a condition temp -> `if e: ...`
+                    if (isinstance(st, ast.Assign) and len(st.targets) == 1 and isinstance(st.targets[0], ast.Name) and isinstance(nx, ast.If)
+                            and self._uses and self._uses[-1].get(st.targets[0].id, 0) == 2):
+                        tn = st.targets[0].id
+                        tst = nx.test
+                        if isinstance(tst, ast.Name) and tst.id == tn:
+                            nx.test = st.value
+                            self.rewrites += 1
+                            i += 1
+                            continue
+                        if isinstance(tst, ast.UnaryOp) and isinstance(tst.op, ast.Not) and isinstance(tst.operand, ast.Name) and tst.operand.id == tn:
+                            tst.operand = st.value
+                            self.rewrites += 1
+                            i += 1
+                            continue
                     out.append(st)
                     i += 1
                 setattr(node, fld, out)
